@@ -102,12 +102,31 @@ let run_loc id rest =
     if s = "-" || s = "" then [] else
       List.map (fun e ->
           match String.split_on_char ':' e with
-          | [nm; k] -> (bytes_of_hex nm, k = "d")
+          | [nm; k] -> { de_name = bytes_of_hex nm; de_isdir = (k = "d"); de_size = N0 }
+          | [nm; k; sz] -> { de_name = bytes_of_hex nm; de_isdir = (k = "d"); de_size = n_of_string sz }
           | _ -> failwith "bad entry") (String.split_on_char ',' s) in
   match locate_snapshot_file (get f "exists" = "1") entries with
   | LocOk nm -> Printf.printf "%s locate OK %s\n" id (hex_of_bytes nm)
   | LocPathNotExist -> Printf.printf "%s locate NOTEXIST\n" id
   | LocIncomplete -> Printf.printf "%s locate INCOMPLETE\n" id
+
+let run_ext id rest =
+  let f = fields rest in
+  let entries =
+    let s = get f "entries" in
+    if s = "-" || s = "" then [] else
+      List.map (fun e ->
+          match String.split_on_char ':' e with
+          | [nm; k; sz] -> { de_name = bytes_of_hex nm; de_isdir = (k = "d"); de_size = n_of_string sz }
+          | _ -> failwith "bad entry") (String.split_on_char ',' s) in
+  let files =
+    let s = get f "files" in
+    if s = "-" || s = "" then [] else
+      List.mapi (fun i e ->
+          match String.split_on_char ':' e with
+          | [p; sz] -> { sf_path = bytes_of_hex p; sf_size = n_of_string sz; sf_id = n_of_int (i + 1); sf_meta = [] }
+          | _ -> failwith "bad file") (String.split_on_char ',' s) in
+  Printf.printf "%s ext %s\n" id (if has_all_external_files files entries then "COMPLETE" else "INCOMPLETE")
 
 let ls_replica = n_of_int 3
 let ls_snapshot index term typ imported : snapshot =
@@ -166,7 +185,103 @@ let run_ls id rest =
     Printf.printf "%s ls post state=%s snap=%s boot=%s visible=%d\n" id state_s snap_s boot_s
       (List.length (ls_visible_entries l ss.s_index))
 
-let run_e2e id rest = Printf.printf "%s e2e SKIP\n" id
+(* ---- end-to-end cases: the model predicts, per trial, whether ImportSnapshot
+   refuses, and the membership after the repair. The export is represented by a
+   synthetic one-block snapshot file (the real one differs in content, not in
+   layout); a corrupted header is represented by an unreadable (too short) file,
+   since the model takes the header as valid (C14 models it). ---- *)
+let nn = n_of_int
+let syn_payload = List.init 40 (fun i -> nn (10 + i))
+let syn_crc = [nn 1; nn 2; nn 3; nn 4]
+let syn_file = zeros (int_of_n rsm_header_size) @ syn_payload @ syn_crc @ zeros 16
+let syn_sum = match payload_checksum syn_file with CkOk s -> s | _ -> []
+let flip_nth l i = List.mapi (fun j x -> if j = i then (if x = N0 then nn 1 else N0) else x) l
+let rec take k l = if k <= 0 then [] else match l with [] -> [] | x :: r -> x :: take (k - 1) r
+
+let parse_old_membership (s : string) : membership =
+  let parts = List.map (fun kv ->
+      match String.index_opt kv '=' with
+      | Some i -> (String.sub kv 0 i, String.sub kv (i + 1) (String.length kv - i - 1))
+      | None -> (kv, "")) (String.split_on_char ';' s) in
+  let g k = try List.assoc k parts with Not_found -> "-" in
+  { m_ccid = nn 50; m_addresses = parse_map (g "a"); m_nonvotings = parse_map (g "n");
+    m_witnesses = parse_map (g "w"); m_removed = parse_set (g "r") }
+
+let run_e2e id rest =
+  if String.length rest >= 4 && String.sub rest 0 4 = "skip" then Printf.printf "%s e2e SKIP\n" id else begin
+    let head, body = split_bar rest in
+    let f = fields head in
+    let has_ext = (get f "sm" = "regular" && get f "fs" = "disk") in
+    let oldm = parse_old_membership (get f "old") in
+    let snap_name = bytes_of_string "snapshot-0000000000000064.gbsnap" in
+    let ext_name = bytes_of_string "external-file-1" in
+    let old : snapshot =
+      { s_filepath = bytes_of_string "/nh1/snapshot-0000000000000064/" @ snap_name; s_filesize = nlen syn_file;
+        s_index = nn 100; s_term = nn 2; s_membership = oldm;
+        s_files = (if has_ext then [{ sf_path = bytes_of_string "/nh1/snapshot-0000000000000064/" @ ext_name;
+                                      sf_size = nn 9; sf_id = nn 1; sf_meta = [] }] else []);
+        s_checksum = syn_sum; s_dummy = false; s_shard = nn 1; s_type = nn 1; s_imported = false;
+        s_ondisk = N0; s_witness = false } in
+    let de n sz = { de_name = n; de_isdir = false; de_size = sz } in
+    let base_entries = [de snap_name (nlen syn_file); de (bytes_of_string "snapshot.metadata") (nn 80)]
+                       @ (if has_ext then [de ext_name (nn 9)] else []) in
+    Printf.printf "%s export OK old=%s\n" id (get f "old");
+    let hdr = int_of_n rsm_header_size in
+    if body <> "" then
+      List.iteri (fun n ts ->
+          match split_ws ts with
+          | [name; corruption; self; raddr; members] ->
+            let cname, arg = match String.index_opt corruption ':' with
+              | Some i -> String.sub corruption 0 i,
+                          int_of_string (String.sub corruption (i + 1) (String.length corruption - i - 1))
+              | None -> corruption, 0 in
+            if (cname = "del-ext" || cname = "flip-ext") && not has_ext then
+              Printf.printf "%s trial %d %s NOEXT\n" id n name
+            else begin
+              let entries = match cname with
+                | "del-snap" -> List.filter (fun e -> e.de_name <> snap_name) base_entries
+                | "extra-snap" -> de (bytes_of_string "copy-of-s.gbsnap") (nlen syn_file) :: base_entries
+                | "del-ext" -> List.filter (fun e -> e.de_name <> ext_name) base_entries
+                | _ -> base_entries in
+              let meta = match cname with
+                | "del-meta" -> MetaErr
+                | "flip-meta" | "trunc-meta" -> MetaPanic
+                | _ -> MetaOk old in
+              let len = List.length syn_file in
+              let file = match cname with
+                | "flip-crc" -> flip_nth syn_file (hdr + 40 + arg mod 4)
+                | "flip-hdr" -> take 10 syn_file
+                | "flip-pad" -> flip_nth syn_file (100 + arg mod 900)
+                | "flip-payload" -> flip_nth syn_file (hdr + arg mod 40)
+                | "flip-tail" -> flip_nth syn_file (len - 16 + arg mod 16)
+                | "trunc" -> take (len - (1 + arg mod (len - 1))) syn_file
+                | "append" -> syn_file @ List.init (1 + arg mod 9) (fun _ -> nn 90)
+                | _ -> syn_file in
+              let inp = { in_raft_address = bytes_of_hex raddr; in_members = parse_map members;
+                          in_replica = n_of_string self; in_src_exists = true; in_entries = entries;
+                          in_meta = meta; in_file = file; in_ssdir_exists = true;
+                          in_final_dir = bytes_of_string "/t/final"; in_env_fail = [] } in
+              (match snd (import_run inp) with
+               | Imported _ -> Printf.printf "%s trial %d %s ACCEPTED\n" id n name
+               | _ -> Printf.printf "%s trial %d %s REFUSED\n" id n name)
+            end
+          | _ -> Printf.printf "%s trial %d BADTRIAL\n" id n) (Str.split (Str.regexp_string " ; ") body);
+    let members = parse_map (get f "members") in
+    let ok = ref true in
+    List.iter (fun (k, a) ->
+        let inp = { in_raft_address = a; in_members = members; in_replica = k; in_src_exists = true;
+                    in_entries = base_entries; in_meta = MetaOk old; in_file = syn_file; in_ssdir_exists = false;
+                    in_final_dir = bytes_of_string "/t/final"; in_env_fail = [] } in
+        match snd (import_run inp) with
+        | Imported _ -> if !ok then Printf.printf "%s import %s OK\n" id (string_of_n k)
+        | _ -> if !ok then Printf.printf "%s import %s ERR\n" id (string_of_n k); ok := false) (mnorm members);
+    if !ok then begin
+      let ss = get_processed (bytes_of_string "/t/final") old members in
+      let m = ss.s_membership in
+      Printf.printf "%s restart members=%s nonvoting=%s witness=%s removed=%s state=EXPORTED propose=OK\n" id
+        (show_map m.m_addresses) (show_map m.m_nonvotings) (show_map m.m_witnesses) (show_set m.m_removed)
+    end
+  end
 
 let () =
   iter_lines (fun line ->
@@ -178,6 +293,7 @@ let () =
        | "cm" -> run_cm id rest
        | "img" -> run_img id rest
        | "loc" -> run_loc id rest
+       | "ext" -> run_ext id rest
        | "ls" -> run_ls id rest
        | "e2e" -> run_e2e id rest
        | _ -> Printf.printf "%s BADCASE\n" id)
